@@ -24,13 +24,20 @@
    between are stuttering steps, no save is due there).                                        *)
 EXTENDS Integers, Sequences, FiniteSets, TLC, Emit
 
-CONSTANTS NV, RepMax, SavePeriod, MaxInc, DeletePartials, AllowMismatch,
+CONSTANTS NV, SavePeriod, MaxInc, DeletePartials, AllowMismatch,
+          RepMaxSeq, \* rep_max of each incarnation (the user may ask for fewer or more repetitions when running again;
+                     \* rep_max is explicitly not one of the parameters that the saved results are compared on)
+          AllowRerun,\* a completed simulation whose partial results were kept may be started again (next rep_max)
           TimerAt, \* set of <<variation, rep>>: more than five minutes have passed since the last save when that
                    \* repetition has been merged (the wall-clock half of save_partial_results_maybe)
           Dev      \* [NonAtomicWrite, SaveBeforeIncrement, LoadedMergedTwice, NoParamGuard, TornAccepted : BOOLEAN]
 
 VARIABLES inc, phase, ret, v, rep, cur, disk, final, wr, pid, hist, loaded, nw
 vars == <<inc, phase, ret, v, rep, cur, disk, final, wr, pid, hist, loaded, nw>>
+RepMax == RepMaxSeq[inc]
+RECURSIVE MaxOf(_, _)
+MaxOf(sq, k) == IF k = 0 THEN 0 ELSE IF sq[k] > MaxOf(sq, k - 1) THEN sq[k] ELSE MaxOf(sq, k - 1)
+MaxRepMax == MaxOf(RepMaxSeq, Len(RepMaxSeq))
 
 Zero == [i \in 1..MaxInc |-> 0]
 RECURSIVE SumTo(_, _)
@@ -38,6 +45,7 @@ SumTo(c, k) == IF k = 0 THEN 0 ELSE c[k] + SumTo(c, k - 1)
 Total(c) == SumTo(c, MaxInc)
 NoWr == [f |-> 0]
 Terminal == phase \in {"done", "loadfail", "refused"}
+Ended == phase \in {"loadfail", "refused"} \/ (phase = "done" /\ ~(AllowRerun /\ ~DeletePartials /\ inc < MaxInc))
 \* a file: absent, torn (partly written) or whole with a content
 Absent == [kind |-> "absent"]
 Torn == [kind |-> "torn"]
@@ -139,7 +147,15 @@ Restart ==
   /\ nw' = [f \in 0..NV |-> 0]
   /\ UNCHANGED <<ret, disk, final, wr, hist, loaded>>
 
-Next == Load \/ First \/ Test \/ Body \/ VarSave \/ SaveBegin \/ SaveCommit \/ AppendVar \/ Delete \/ Crash \/ Restart
+\* a completed simulation is started again (same parameters, the next rep_max); its partial results are still there
+Rerun ==
+  /\ phase = "done" /\ AllowRerun /\ ~DeletePartials /\ inc < MaxInc
+  /\ hist' = Append(hist, [inc |-> inc, v |-> 0, crash |-> "rerun", rep |-> 0, wf |-> 0, nw |-> 0, ret |-> "none"])
+  /\ inc' = inc + 1 /\ phase' = "load" /\ v' = 1 /\ rep' = 0 /\ cur' = Zero
+  /\ nw' = [f \in 0..NV |-> 0]
+  /\ UNCHANGED <<ret, disk, final, wr, pid, loaded>>
+
+Next == Load \/ First \/ Test \/ Body \/ VarSave \/ SaveBegin \/ SaveCommit \/ AppendVar \/ Delete \/ Crash \/ Restart \/ Rerun
 Spec == Init /\ [][Next]_vars
 
 (* ------------------------------ properties ----------------------------------------------- *)
@@ -149,12 +165,16 @@ RestartNeverFails == phase # "loadfail"
 NoDoubleCount == phase \in {"test", "body", "vsave", "append"} => Total(cur) = rep
 \* whatever is on disk is a consistent snapshot
 WholeFile(f) == f.kind = "whole"
-DiskSound == \A f \in 1..NV : WholeFile(disk[f]) => (Total(disk[f].cnt) = disk[f].rep /\ disk[f].rep <= RepMax)
+DiskSound == \A f \in 1..NV : WholeFile(disk[f]) => (Total(disk[f].cnt) = disk[f].rep /\ disk[f].rep <= MaxRepMax)
 \* only durably saved repetitions of earlier incarnations are used: what is loaded is what the file held
 \* and after completion every combination has exactly RepMax repetitions
 Variations(h) == {k \in 1..Len(h) : "cnt" \in DOMAIN h[k] /\ h[k].inc = inc}
+\* (a combination that already holds more than this incarnation's rep_max keeps what it has: nothing is dropped, nothing is run)
+LoadedRep(f) == LET ks == {k \in 1..Len(loaded) : loaded[k][1] = inc /\ loaded[k][2] = f} IN
+                IF ks = {} THEN 0 ELSE loaded[CHOOSE k \in ks : TRUE][3]
+Want(f) == IF LoadedRep(f) > RepMax THEN LoadedRep(f) ELSE RepMax
 ResumeExact == phase = "done" =>
-                 /\ \A f \in 1..NV : \E k \in Variations(hist) : hist[k].v = f /\ hist[k].rep = RepMax /\ Total(hist[k].cnt) = RepMax
+                 /\ \A f \in 1..NV : \E k \in Variations(hist) : hist[k].v = f /\ hist[k].rep = Want(f) /\ Total(hist[k].cnt) = Want(f)
                  /\ WholeFile(final)
 \* partial results saved for other parameters are refused, never merged
 MismatchRefused == \A k \in 1..Len(loaded) : loaded[k][4] = loaded[k][5]
@@ -162,7 +182,7 @@ MismatchRefused == \A k \in 1..Len(loaded) : loaded[k][4] = loaded[k][5]
 (* ------------------------------ emission ------------------------------------------------- *)
 \* one summary per terminal behaviour
 Emit == (phase' \in {"done", "loadfail", "refused"} /\ ~Terminal) =>
-          EmitCase([nv |-> NV, repmax |-> RepMax, period |-> SavePeriod, delete |-> DeletePartials,
+          EmitCase([nv |-> NV, repmax |-> RepMaxSeq[inc'], rms |-> RepMaxSeq, period |-> SavePeriod, delete |-> DeletePartials,
                     outcome |-> phase', incs |-> inc', pid |-> pid', hist |-> hist', loaded |-> loaded',
                     last |-> [v |-> v', rep |-> rep', cnt |-> cur']])
 =============================================================================
